@@ -169,3 +169,88 @@ def pipeline_runs(rep, binary, prop, aspect, runs=60):
                           {x: exp[x] for x in keys}, {x: o[x] for x in keys},
                           "end-to-end pipeline, scenario %s, flight %s byte %s: %s = %s, the model says %s" % (o["scenario"], o["fl"], o["sent"], k, o[k], exp[k]), "pipeline")
     rep.cov["traces_validated_against_impl"] += len(nruns)
+
+
+# ------------------------------------------------------------------ the repository's own test vectors
+CAPTURE_FNS = ["parse_tls_plaintext", "tls_parser_many", "parse_tls_raw_record", "parse_tls_encrypted", "two_step",
+               "parse_tls_message_handshake", "deep_client_hello", "parse_tls_extensions", "parse_tls_client_hello_extensions",
+               "parse_tls_server_hello_extensions", "parse_tls_extension", "parse_dh_params", "parse_ecdh_params",
+               "parse_ct_signed_certificate_timestamp_list", "parse_ct_signed_certificate_timestamp",
+               "parse_dtls_plaintext_record", "parse_dtls_plaintext_records", "parse_dtls_message_handshake",
+               "parse_digitally_signed", "parse_tls_handshake_msg_client_hello", "parse_tls_handshake_msg_server_hello",
+               "parse_tls_handshake_msg_certificate", "parse_tls_handshake_msg_serverkeyexchange",
+               ("deep_server_key_exchange", {"sub": "ecdh", "ext": 1}), ("deep_server_key_exchange", {"sub": "dh", "ext": 1}),
+               ("deep_server_key_exchange", {"sub": "ecdh", "ext": 0}), ("deep_server_key_exchange", {"sub": "dh", "ext": 0}),
+               ("parse_content_and_signature", {"sub": "ecdh", "ext": 1}), ("parse_content_and_signature", {"sub": "dh", "ext": 0})]
+
+
+def extract_captures(repo="/repo"):
+    """Every byte-array literal (>= 4 bytes) of the crate's tests, benches and test modules, and its binary assets:
+    the real captures the maintainers test with.  Read from the working tree at check time."""
+    import glob, re
+    arrs, seen = [], set()
+
+    def add(src, vals):
+        t = tuple(vals)
+        if len(vals) >= 4 and t not in seen:
+            seen.add(t)
+            arrs.append((src, list(vals)))
+    for f in sorted(glob.glob(repo + "/tests/*.rs") + glob.glob(repo + "/src/*.rs") + glob.glob(repo + "/benches/*.rs")):
+        t = re.sub(r"//[^\n]*", "", open(f, errors="replace").read())
+        t = re.sub(r"/\*.*?\*/", "", t, flags=re.S)
+        for m in re.finditer(r"\[\s*((?:(?:0x[0-9a-fA-F]{1,2}|\d{1,3})(?:u8)?\s*,\s*)*(?:0x[0-9a-fA-F]{1,2}|\d{1,3})(?:u8)?\s*,?\s*)\]", t):
+            vals = [int(x.replace("u8", ""), 0) for x in re.findall(r"0x[0-9a-fA-F]{1,2}|\d{1,3}(?:u8)?", m.group(1))]
+            if all(v < 256 for v in vals):
+                add(os.path.basename(f), vals)
+    for f in sorted(glob.glob(repo + "/assets/*.bin")):
+        add(os.path.basename(f), list(open(f, "rb").read()))
+    return arrs
+
+
+def captures(rep, binary, prop, fns=None, cuts=True):
+    """(b) impl -> spec on REAL traffic: every test vector of the repository (and its tails after a record header / a
+    handshake header, and a few truncations) through the entry points, the crate's answer compared IN FULL with the
+    specification's.  Returns the number of events."""
+    arrs = extract_captures()
+    if len(arrs) < 20:
+        raise vlib.ToolError("only %d test vectors found in /repo (expected about 45)" % len(arrs))
+    inputs = []
+    for src, b in arrs:
+        inputs.append((src, b))
+        if len(b) > 5 and b[0] in (20, 21, 22, 23, 24) and b[1] in (3, 254):
+            inputs.append((src + "[5..]", b[5:]))
+            if len(b) > 9 and b[0] == 22:
+                inputs.append((src + "[9..]", b[9:]))
+        if cuts and len(b) > 12:
+            for k in sorted({1, 5, 6, 9, len(b) // 2, len(b) - 1}):
+                inputs.append((src + "[..%d]" % k, b[:k]))
+    d = vlib.workdir(prop, "captures")
+    cases = []
+    for n, (src, b) in enumerate(inputs):
+        for k, fn in enumerate(fns or CAPTURE_FNS):
+            fn, over = (fn, {}) if isinstance(fn, str) else fn
+            a = dict(default_args(fn, b), **over)
+            cases.append({"id": "%d/%d/%s" % (n, k, fn), "fn": fn, "a": a, "input": [{"lit": b, "fill": [0, 0, 0]}], "note": {"src": src}})
+    outs = vlib.replay_cases(binary, d, [dict(c, expect=None, pin="none") for c in cases], name="captures")
+    events = []
+    for c in cases:
+        o = outs.get(c["id"])
+        if o is None or "res" not in o:
+            raise vlib.ToolError("no observation for capture %s" % c["id"])
+        events.append(dict(o, id=c["id"], fn=c["fn"], a=c["a"], input=c["input"], src=c["note"]["src"]))
+    spec = trace_parse(rep, prop, "captures_oracle", events, nchunks=12)
+    if len(spec) != len(events):
+        raise vlib.ToolError("captures: %d specification answers for %d events" % (len(spec), len(events)))
+    ok_n = sum(1 for e in events if e["res"]["k"] == "ok")
+    judge_events(rep, events, spec, pinf=lambda e, s: "full",
+                 keyf=lambda e: "capture:%s:%s" % (e["fn"], vlib.hashlib.sha1(vlib.json.dumps(e["input"]).encode()).hexdigest()[:10]))
+    big = [e for e in events if e["res"]["k"] == "ok" and e["len"] > 200]
+    if big:
+        rep.sample({"capture": big[0]["src"], "fn": big[0]["fn"], "bytes": big[0]["len"], "consumed": big[0]["res"]["p"]})
+    rep.cov["captures"] = {"vectors": len(arrs), "inputs": len(inputs), "events": len(events), "accepted": ok_n}
+    return len(events)
+
+
+def default_args(fn, b):
+    a = {"len": len(b), "ext": 1, "ct": 22, "ver": 771, "sub": "ecdh"}
+    return a
